@@ -106,4 +106,83 @@ theorem build_ok_pos (T lo n padL padR : Nat) (f : Nat → Option β) (r : Corr 
   | succ n => omega
 
 
+theorem mapM_some_iff' {γ δ : Type} (f : γ → Option δ) : ∀ (l : List γ) (out : List δ),
+    l.mapM f = some out ↔ out.length = l.length ∧ ∀ k (h : k < l.length), f l[k] = out[k]?
+  | [], out => by
+    cases out with
+    | nil => simp
+    | cons a t => simp
+  | x :: xs, out => by
+    rw [List.mapM_cons]
+    cases hx : f x with
+    | none =>
+      simp only [Option.bind_eq_bind, Option.bind_none, reduceCtorEq, false_iff, not_and]
+      intro hl hk
+      have := hk 0 (by simp)
+      simp only [List.getElem_cons_zero, hx] at this
+      cases out with
+      | nil => simp at hl
+      | cons a t => simp at this
+    | some y =>
+      cases out with
+      | nil =>
+        simp only [Option.bind_eq_bind, Option.bind_some, List.length_nil, List.length_cons]
+        cases h : xs.mapM f <;> simp
+      | cons a t =>
+        simp only [Option.bind_eq_bind, Option.bind_some, List.length_cons]
+        cases h : xs.mapM f with
+        | none =>
+          simp only [Option.map_none, reduceCtorEq, false_iff, not_and, Option.bind_none]
+          intro hl hk
+          have hx' : xs.mapM f = some t := (mapM_some_iff' f xs t).2 ⟨by omega, fun k hk' => by
+            have := hk (k + 1) (by simp; omega)
+            simpa using this⟩
+          rw [h] at hx'; cases hx'
+        | some r =>
+          have ih := mapM_some_iff' f xs r
+          simp only [Option.bind_some, Option.pure_def, Option.some.injEq, List.cons.injEq]
+          constructor
+          · rintro ⟨rfl, rfl⟩
+            obtain ⟨hl, hk⟩ := ih.1 h
+            refine ⟨by omega, ?_⟩
+            intro k hk'
+            cases k with
+            | zero => simp [hx]
+            | succ k => simpa using hk k (by simpa using hk')
+          · rintro ⟨hl, hk⟩
+            have h0 := hk 0 (by simp)
+            simp only [List.getElem_cons_zero, hx, List.getElem?_cons_zero, Option.some.injEq] at h0
+            refine ⟨h0, ?_⟩
+            have : xs.mapM f = some t := (mapM_some_iff' f xs t).2 ⟨by omega, fun k hk' => by
+              have := hk (k + 1) (by simp; omega)
+              simpa using this⟩
+            rw [h] at this
+            exact Option.some.inj this
+
+theorem mapM_none_iff' {γ δ : Type} (f : γ → Option δ) : ∀ (l : List γ),
+    l.mapM f = none ↔ ∃ k, ∃ h : k < l.length, f l[k] = none
+  | [] => by simp
+  | x :: xs => by
+    rw [List.mapM_cons]
+    cases hx : f x with
+    | none =>
+      simp only [Option.bind_eq_bind, Option.bind_none, true_iff]
+      exact ⟨0, by simp, by simpa using hx⟩
+    | some y =>
+      simp only [Option.bind_eq_bind, Option.bind_some]
+      cases h : xs.mapM f with
+      | none =>
+        simp only [Option.bind_none, true_iff]
+        obtain ⟨k, hk, hf⟩ := (mapM_none_iff' f xs).1 h
+        exact ⟨k + 1, by simp; omega, by simpa using hf⟩
+      | some r =>
+        simp only [Option.bind_some, Option.pure_def, reduceCtorEq, false_iff, not_exists]
+        intro k hk hf
+        cases k with
+        | zero => simp [hx] at hf
+        | succ k =>
+          have : xs.mapM f = none := (mapM_none_iff' f xs).2 ⟨k, by simpa using hk, by simpa using hf⟩
+          rw [h] at this; cases this
+
+
 end PV
